@@ -221,6 +221,22 @@ def one(prop, rep, cfg, word, raw, placement, horizon):
     cs = [r[:5] for r in raw]
     exp = reference(cfg, cs, xseries(raw, placement))
     ok = compare(prop, rep, cfg, exp, got, case)
+    # documented use of recalculate(): "ideal for changing an indicator parameters midway" - build with period+1, calculate,
+    # set the period, recalculate: the readings must be those of the new period (simple averages only: composites fix their
+    # helpers' periods when they are first calculated)
+    if ok and prop == "C04" and placement == ("field", "close") and kind in ("SMA", "EMA", "RMA", "WMA", "VWMA") and "period" in cfg["kw"]:
+        try:
+            ind2 = make(dict(cfg, kw=dict(cfg["kw"], period=cfg["kw"]["period"] + 1)), candles=fresh(raw),
+                        **({"input_value": "close"} if kind in HAS_INPUT else {}))
+            ind2.calculate()
+            ind2.period = cfg["kw"]["period"]
+            ind2.recalculate()
+            got2 = ind2.as_list()
+        except Exception as e:
+            rep.violation(f"{prop}|{kind}|reparam-raised|{type(e).__name__}", dict(case, oracle="reparam", error=repr(e)))
+            return
+        rep.inc("executions")
+        compare(prop, rep, dict(cfg, label=cfg["label"]), exp, got2, dict(case, placement=("reparam", cfg["kw"]["period"] + 1)))
     # position independence: input starting at k == same indicator over close on the list cut at k, shifted
     if ok and placement[0] == "late" and prop == "C04":
         k = placement[1]
@@ -284,7 +300,7 @@ def chain_check(prop, tier):
 
 def replay(case):
     pl = tuple(case["placement"])
-    if pl[0] == "chain":
+    if pl[0] in ("chain", "reparam"):
         return True
     cfg = BY_LABEL[case["cfg"]]
     rep = Report()
